@@ -409,8 +409,8 @@ def run_impl(prop, case):
         off = noassert.call("harness.engines.binary", "run_history", case, True)
         obs["pre_off"] = off["pre"]
         obs["off"] = off["branches"]
-        # the library results are compared only where the histories themselves were accepted with the checks on
-        ok = [all(code == 0 for _, code in tr) for tr in on["branches"]]
+        # the library results are compared wherever no type/loop check rejected a call (hook failures allowed)
+        ok = [all(code not in (1, 6) for _, code in tr) for tr in on["branches"]]    # no TypeError / LoopError
         obs["lib_equal"] = all(a == b for a, b, k in zip(on["battery"], off["battery"], ok) if k)
         obs["battery_items"] = sum(len(b) for b, k in zip(on["battery"], ok) if k)
         if not obs["lib_equal"]:
@@ -648,6 +648,26 @@ def _A(x):
     return ["None"] if x is None else ["N", x]
 
 
+def _no_fault(op):
+    """the same call with no hook failing"""
+    k = op[0]
+    op = [list(x) if isinstance(x, list) else x for x in op]
+    if k in ("SetParent", "SetLeft", "SetRight"):
+        op[3] = "none"
+    elif k == "SetChildren":
+        op[4] = "none"
+    elif k == "Extend":
+        op[3] = ["none"] * len(op[3])
+    elif k == "New":
+        op[5] = op[6] = "none"
+    return op
+
+
+def _check_valid(sh, op):
+    """no type/loop check (and no other refusal) would reject this call from the shadow state"""
+    return sh.copy().apply(_no_fault(op))
+
+
 def gen_case(rng, prop, fault_rate=0.1, invalid_rate=0.15, nmin=3, nmax=7, maxops=14, stratum=None, only_valid=False):
     n = rng.randint(nmin, nmax)
     sh = Shadow(n)
@@ -741,7 +761,7 @@ def gen_case(rng, prop, fault_rate=0.1, invalid_rate=0.15, nmin=3, nmax=7, maxop
         if ops and ops[-1][0] != "New" and rng.random() < 0.08:
             # the same call once more on the same objects (repeatability; re-attachment to the same parent)
             op = [list(x) if isinstance(x, list) else x for x in ops[-1]]
-            if only_valid and not sh.copy().apply(op):
+            if only_valid and not _check_valid(sh, op):
                 continue
             ops.append(op)
             sh.apply(op)
@@ -866,7 +886,7 @@ def gen_case(rng, prop, fault_rate=0.1, invalid_rate=0.15, nmin=3, nmax=7, maxop
                     ch = list(ch)
                     ch[rng.randrange(len(ch))] = _junk(rng)
             op = ["New", l, r, par, ch, fault(), fault()]
-        if only_valid and not sh.copy().apply(op):
+        if only_valid and not _check_valid(sh, op):
             continue
         ops.append(op)
         sh.apply(op)
@@ -903,7 +923,7 @@ def reachable_states(n, cap=4000):
 def op_universe(n, prop):
     vals = [["None"]] + [["N", i] for i in range(n)]
     jvals = vals + [["Junk", "obj"], ["Junk", "0"]]
-    faults = ["none"] if prop == "C20" else ["none", "pre", "post"]
+    faults = ["none", "pre", "post"]         # C20 too: a hook failure is the same user-level event in both interpreters
     use = vals if prop == "C20" else jvals
     ops = []
     for c in range(n):
@@ -953,7 +973,7 @@ def enumerate_cases(prop, sizes=(2, 3, 4), per_case=60):
             for mv in hist:
                 sh.apply(mv)
             if prop == "C20":
-                us = [o for o in univ if sh.copy().apply(o)]     # only operations that are valid from here
+                us = [o for o in univ if _check_valid(sh, o)]    # only calls no check (or other refusal) rejects; hooks may fail
             else:
                 us = univ
             for k in range(0, len(us), per_case):
@@ -999,14 +1019,20 @@ def corpus(prop):
         hs["ctor-half"] = [["SetLeft", 1, N(0), "none"], ["New", NO, NO, N(1), [N(1), NO], "none", "none"],
                            ["New", N(0), NO, NO, [], "none", "post"]]
     else:
-        hs = {k: v for k, v in hs.items() if k != "reattach-same-parent"}     # no faults for C20
+        # C20: hook failures are allowed (same fault queue in both interpreters), check-rejected calls are not
+        hs["rollback-two-orphans"] = [["SetChildren", 0, "list", [N(1), N(2)], "post"], ["SetChildren", 3, "list", [N(2), N(1)], "none"],
+                                      ["SetChildren", 0, "list", [N(2), N(1)], "post"], ["SetParent", 1, N(4), "post", "set"],
+                                      ["SetParent", 2, NO, "pre", "set"], ["SetRight", 3, N(4), "post"]]
+        hs["same-parent-post-fault"] = [["SetChildren", 0, "list", [NO, N(1)], "none"], ["SetParent", 1, N(0), "post", "set"],
+                                        ["SetParent", 1, N(0), "post", "append"], ["SetLeft", 0, N(2), "post"], ["SetLeft", 0, N(2), "none"],
+                                        ["SetParent", 2, N(3), "post", "set"], ["Extend", 4, [1, 2], ["none", "post"]]]
     for k, ops in hs.items():
         yield k, {"assert": True, "n": 5, "prefix": [], "branches": [ops], "stratum": "corpus"}
 
 
 def generate(prop, rng, tier):
     count = {"quick": 900, "thorough": 12000, "search": 2500}[tier]
-    fr = {"C11": 0.10, "C02": 0.40, "C20": 0.0}[prop]
+    fr = {"C11": 0.10, "C02": 0.40, "C20": 0.15}[prop]
     ir = {"C11": 0.20, "C02": 0.25, "C20": 0.0}[prop]
     if tier == "thorough":
         yield from enumerate_cases(prop)
@@ -1086,7 +1112,7 @@ def rule(prop):
             "writes it is flagged); every run: every state reachable on 2 and 3 nodes x every operation (thorough: also 4 nodes); observed "
             "after every step, for every node: parent, node.children, node.left, node.right (exception or a non-node value distinguishable), "
             "accepted/rejected; non-trivial = >=2 accepted ops and >=1 linked node (C02: >=1 accepted and >=1 rejected/failing op); C20: no "
-            "faults / no invalid ops, each case additionally run in a child interpreter with BIGTREE_CONF_ASSERTIONS=\"\" and a battery of "
+            "check-rejected ops but pre/post hook failures on ~15% of the ops (same fault queue in both interpreters), each case additionally run in a child interpreter with BIGTREE_CONF_ASSERTIONS=\"\" and a battery of "
             "library calls (in/pre/post/level/zigzag iterators, descendants, leaves, max_depth, diameter, print_tree, tree_to_dict, "
             "tree_to_nested_dict, clone_tree, copy, prune_tree, get_subtree, name/val/attributes/is_leaf/depth/path_name/siblings) compared "
             "across the two interpreters; distinct by canonical JSON hash")
@@ -1121,7 +1147,7 @@ def partial_clauses(prop):
         return common + ["binary: extend and the constructor are sequences of setter calls; atomicity is checked and proved per setter "
                          "call, their earlier accepted assignments stay (binary_atomic excludes BExtend/BNew)"]
     if prop == "C20":
-        return common + ["binary: with the checks off only histories that are valid with the checks on are modelled (anything a guard "
+        return common + ["binary: with the checks off only histories in which no type/loop check rejects a call are modelled (hook failures included) (anything a guard "
                          "would reject is Unmodelled and not generated); the prefix of an enumeration case is observed at its end only; "
                          "the library battery is compared between the interpreters, not against a model"]
     return common
